@@ -277,8 +277,29 @@ func x2TombstoneHeader(p *core.Prog, r *core.Report) {
 		info := f.Info()
 		g := f.Graph()
 		// the header value: a local assigned once from binary.BigEndian.Uint32
+		readerOn := func(e *core.Edge, k *types.Const) {
+			// the equal branch returns the result of exactly one reader
+			if rs, ok := e.To.N.(*ast.ReturnStmt); ok && len(rs.Results) == 1 {
+				if c, ok := ast.Unparen(rs.Results[0]).(*ast.CallExpr); ok {
+					if fn := core.Callee(info, c); fn != nil {
+						disp[k.Name()] = fn.Name()
+					}
+				}
+			}
+		}
+		fromHeader := func(e ast.Expr) bool {
+			ho := core.ObjOf(info, e)
+			return ho != nil && assignedOnlyFrom(f, ho, call("encoding/binary.bigEndian.Uint32", "encoding/binary.ByteOrder.Uint32"))
+		}
 		for _, nd := range g.Nodes {
 			for _, e := range nd.Succ {
+				// switch header { case k: … }
+				if e.Tag != nil && e.Cond != nil && e.Branch {
+					if k, ok := core.ObjOf(info, ast.Unparen(e.Cond)).(*types.Const); ok && k.Pkg() == pk.Types && fromHeader(ast.Unparen(e.Tag)) {
+						readerOn(e, k)
+					}
+					continue
+				}
 				for _, at := range e.Atoms() {
 					be, ok := at.X.(*ast.BinaryExpr)
 					if !ok || (be.Op != token.EQL && be.Op != token.NEQ) {
